@@ -1525,6 +1525,78 @@ def _protocol_classes(mod: Module) -> T.Dict[str, str]:
         for k, v in zip(d.keys, d.values):
             if k is not None and attr_chain(k) and isinstance(v, ast.Name):
                 out[T.cast(str, attr_chain(k)).split('.')[-1]] = v.id
+    # registrar functions: a module-level function whose body (or the body of the one closure it returns) stores
+    # `..PROTOCOL_TO_CLASS[<key parameter>] = <class parameter>` unconditionally.  Uses read: `f(K, C)` / `f(K)(C)` as module
+    # statements, `@f(K)` (factory) on a class.
+    def is_table_store(st: ast.stmt) -> T.Optional[T.Tuple[str, str]]:
+        if isinstance(st, ast.Assign) and len(st.targets) == 1 and isinstance(st.targets[0], ast.Subscript) \
+                and (attr_chain(st.targets[0].value) or '').endswith('PROTOCOL_TO_CLASS') \
+                and isinstance(st.targets[0].slice, ast.Name) and isinstance(st.value, ast.Name):
+            return st.targets[0].slice.id, st.value.id
+        return None
+
+    def plain_params(f: T.Any) -> T.Optional[T.List[str]]:
+        a = f.args
+        if a.vararg or a.kwarg or a.kwonlyargs or a.defaults or f.decorator_list:
+            return None
+        return [x.arg for x in a.posonlyargs + a.args]
+    direct: T.Dict[str, T.Tuple[int, int]] = {}     # f(K, C): indexes of key / class parameter
+    factory: T.Dict[str, int] = {}                  # f(..K..)(C): index of the key parameter
+    for f in mod.tree.body:
+        if not isinstance(f, ast.FunctionDef):
+            continue
+        ps = plain_params(f)
+        if ps is None:
+            continue
+        for st in f.body:
+            kv = is_table_store(st)
+            if kv and kv[0] in ps and kv[1] in ps and kv[0] != kv[1]:
+                direct[f.name] = (ps.index(kv[0]), ps.index(kv[1]))
+        inner = [g for g in f.body if isinstance(g, ast.FunctionDef)]
+        rets = [r for r in ast.walk(f) if isinstance(r, ast.Return) and not any(r in ast.walk(g) for g in inner)]
+        if len(inner) == 1 and len(rets) == 1 and rets[0] is f.body[-1] and isinstance(rets[0].value, ast.Name) and rets[0].value.id == inner[0].name:
+            g = inner[0]
+            gps = plain_params(g)
+            stored = {n.id for n in ast.walk(f) if isinstance(n, ast.Name) and isinstance(n.ctx, (ast.Store, ast.Del))}
+            for st in g.body:
+                kv = is_table_store(st)
+                if kv and gps is not None and len(gps) == 1 and kv[1] == gps[0] and kv[0] in ps and kv[0] not in gps and not (stored & {kv[0], kv[1]}):
+                    factory[f.name] = ps.index(kv[0])
+
+    def key_of(e: ast.AST) -> T.Optional[str]:
+        ch = attr_chain(e)
+        return ch.split('.')[-1] if ch and '.' in ch else None
+
+    def factory_key(c: ast.AST) -> T.Optional[str]:
+        if isinstance(c, ast.Call) and isinstance(c.func, ast.Name) and c.func.id in factory and not c.keywords \
+                and not any(isinstance(a, ast.Starred) for a in c.args) and len(c.args) > factory[c.func.id]:
+            return key_of(c.args[factory[c.func.id]])
+        return None
+    for st in mod.tree.body:
+        if isinstance(st, ast.ClassDef):
+            for dec in st.decorator_list:
+                k = factory_key(dec)
+                if k:
+                    out[k] = st.name
+        elif isinstance(st, ast.Expr) and isinstance(st.value, ast.Call) and not st.value.keywords:
+            c = st.value
+            if isinstance(c.func, ast.Name) and c.func.id in direct and len(c.args) > max(direct[c.func.id]):
+                k = key_of(c.args[direct[c.func.id][0]])
+                v = c.args[direct[c.func.id][1]]
+                if k and isinstance(v, ast.Name):
+                    out[k] = v.id
+            elif len(c.args) == 1 and isinstance(c.args[0], ast.Name):
+                k = factory_key(c.func)
+                if k:
+                    out[k] = c.args[0].id
+    # closed world: every store into the table must have been read by one of the forms above
+    read_fns = set(direct) | set(factory)
+    seen = {id(n) for f in mod.tree.body if isinstance(f, ast.FunctionDef) and f.name in read_fns for n in ast.walk(f)}
+    for f in ast.walk(mod.tree):
+        if isinstance(f, (ast.FunctionDef, ast.AsyncFunctionDef, ast.ClassDef)):
+            for n in ast.walk(f):
+                if id(n) not in seen and isinstance(n, ast.Subscript) and isinstance(n.ctx, ast.Store) and (attr_chain(n.value) or '').endswith('PROTOCOL_TO_CLASS'):
+                    raise Undecided(f'{f.name}: PROTOCOL_TO_CLASS is filled by {short(n)} inside a function or class body; this registration idiom is not read')
     return out
 
 
